@@ -1232,6 +1232,25 @@ fn run_params(plan: &Plan, lib: &dyn Lib, g: Grp, rec: &mut Rec) {
         let o = rec.call(lib, g, op, &[]);
         rec.expect("C08", "malformed-sets-error", !o.is_ok(), || format!("size-0 | {:?} accepted an empty set", op));
     }
+    // the dealer's generator PANICS at its k-th request (a hardware source that fails), the dealer catches the unwind, and
+    // deals another key on the same thread: that key's shares recombine to that key
+    for k in 0..4u64 {
+        let o = rec.call(lib, g, Op::SplitFaultyRng, &[&sk, &u64b(3), &u64b(5), &s32, &u64b(k), &[0u8], &u64b(1), &[1u8]]);
+        if o.is_ok() {
+            continue; // fewer than k requests were made
+        }
+        rec.fault("caller-generator-panics-mid-split");
+        let other = key_of_class(rec, lib, g, 4, 0xD1CE ^ k);
+        let sh = rec.call(lib, g, Op::Split, &[&other, &u64b(2), &u64b(3), &s32]).ok().unwrap_or_default();
+        if sh.len() == 3 {
+            for pair in [[0usize, 1], [1, 2], [0, 2]] {
+                let got = rec.call(lib, g, Op::Combine, &[&sh[pair[0]], &sh[pair[1]]]);
+                rec.expect("C08", "key-recombine", got.first() == Some(other.as_slice()), || format!("after-aborted-split request {} g={} | the next key dealt on this thread (2-of-3): shares {:?} do not recombine to it", k, g.name(), pair));
+            }
+        } else {
+            rec.expect("C08", "key-recombine", false, || format!("after-aborted-split request {} g={} | the next split failed", k, g.name()));
+        }
+    }
     // a transient fault of the dealer's entropy source: ONE request of the caller's generator is answered with a block of
     // zero bytes (or of 0xff bytes), every request in turn. Whatever the dealer does with that block, the sharing is still
     // t-of-n: t shares give the key, t-1 shares do not.
